@@ -17,7 +17,8 @@ if len(sys.argv) > 3:
     p = json.loads(sys.argv[3]); obs = [o for o in obs if o.meta.get("path") == p]
 ob = obs[0]
 print(ob.name, ob.meta.get("path"), ob.meta.get("trail"))
-allf = solve._all_formulas(ob, res.str_axioms)
+sl = solve.slice_obligation(ob) or ob
+allf = solve._all_formulas(sl, res.str_axioms)
 qf, complete = solve.instantiate_quantifiers(allf)
 ex = prelude.instantiate(qf)
 s = z3.Solver(); s.set("timeout", 60000)
@@ -43,3 +44,45 @@ if len(sys.argv) > 4:
         t = str(h)
         if pat in t:
             print("HYP:", t.replace("\n", " ")[:1500]); print("--")
+sums = list(prelude.apps_all(qf, []).get("msum", {}).values())
+print("ground sums:", len(sums))
+for t in sums[:40]:
+    print("  ", str(t).replace("\n", " ")[:160], "=", m.eval(t, model_completion=True) if r == z3.sat else "")
+if len(sys.argv) > 5 and r == z3.sat:
+    # evaluate extra terms given as python expressions over z3 consts found by name
+    names = {}
+    for f in qf + ex:
+        st_ = [f]; sn=set()
+        while st_:
+            t = st_.pop()
+            if t.get_id() in sn: continue
+            sn.add(t.get_id())
+            if z3.is_quantifier(t): continue
+            if z3.is_const(t) and t.decl().kind() == z3.Z3_OP_UNINTERPRETED: names[str(t)] = t
+            st_.extend(t.children())
+    for expr in sys.argv[5:]:
+        try:
+            t = eval(expr, {"z3": z3, "N": names, "prelude": prelude})
+            print(expr, "=>", m.eval(t, model_completion=True))
+        except Exception as e:
+            print(expr, "ERR", e)
+if "TRACE" in sys.argv and r == z3.sat:
+    import re
+    vers = sorted([n for n in names if n.startswith("hp__val_Str_Real!")], key=lambda x: int(x.split("!")[1]))
+    obu = names['H__balance_updates#Ref'][names['order!2']]
+    pair = names['H__pair#Pair'][names['order!2']]
+    q = [d for d in [pair.sort().accessor(0, 1)]][0](pair)
+    gp = [t for n, t in names.items() if n.startswith("H_gp#mmapv")][0]
+    for v in ["H_$val#Str#Real"] + vers:
+        if v not in names: continue
+        val = m.eval(names[v][obu][q], model_completion=True)
+        print(v, "obu[q] =", val)
+    for h in sl.hyps:
+        t = str(h)
+        mm = re.match(r"hp__val_Str_Real!(\d+) ==", t)
+        if mm: print(t.replace("\n", " ")[:300]); print("..")
+if "ATOMS" in sys.argv and r == z3.sat:
+    apps = prelude.apps_all(qf + ex, [])
+    for a in apps.get("grid", {}).values():
+        v = m.eval(a, model_completion=True); x = m.eval(a.arg(0), model_completion=True); p = m.eval(a.arg(1), model_completion=True)
+        print(v, x, p, "|", str(a.arg(0)).replace("\n", " ")[:110], "||", str(a.arg(1)).replace("\n", " ")[:60])
